@@ -1,10 +1,12 @@
 import Woodpile.Driver.Util
 import Woodpile.Driver.ReadN
+import Woodpile.Driver.Abt
 
 open Woodpile.Driver
 
 def families : List (String × Family) := [
-  ("readn", ReadNFam.family)
+  ("readn", ReadNFam.family),
+  ("abt", AbtFam.family)
 ]
 
 def main (args : List String) : IO UInt32 := do
